@@ -1,9 +1,11 @@
 package main
 
 import (
+	"fmt"
 	"go/ast"
 	"go/token"
 	"path/filepath"
+	"strconv"
 	"strings"
 )
 
@@ -191,7 +193,20 @@ func emitC13(o *leanOut, repo string) {
 	o.strList("c13_fetch", c13Outline(ctlog, "(*LocalBackend).Fetch"))
 	o.strList("c13_discard", c13Outline(ctlog, "(*LocalBackend).Discard"))
 	o.strList("c13_comparefile", c13Outline(ctlog, "compareFile"))
-	o.strList("c13_compare_buf", c13BufTokens(ctlog, "compareFile"))
+	// tokens as (word, value) pairs so that Lean's kernel can evaluate the parser (`decide`)
+	toks := c13BufTokens(ctlog, "compareFile")
+	o.b.WriteString("def c13_compare_buf : List (String × Nat) := [")
+	for i, t := range toks {
+		if i > 0 {
+			o.b.WriteString(", ")
+		}
+		if v, err := strconv.ParseUint(t, 10, 63); err == nil {
+			fmt.Fprintf(&o.b, "(\"lit\", %d)", v)
+		} else {
+			fmt.Fprintf(&o.b, "(%s, 0)", leanStr(t))
+		}
+	}
+	o.b.WriteString("]\n\n")
 
 	o.strList("c13_immutable_set", c13Outline(imm, "Set"))
 	o.strList("c13_immutable_unset", c13Outline(imm, "Unset"))
